@@ -22,6 +22,7 @@ A temporary conversion buffer is modelled by relocation: what the callee writes 
 pixel (y, x) is what the caller copies to output pixel (row0 + y, col0 + x).
 -/
 import DdsModel.Mach
+import DdsModel.SrcConsts
 namespace Dds.Addr
 open Dds
 
@@ -45,7 +46,7 @@ def Run.shift (dr dc dux duy : Nat) (r : Run) : Run :=
   { r with row := r.row + dr, col := r.col + dc, ux := r.ux + dux, uy := r.uy + duy }
 
 /-- `ChannelConversionBuffer::BUFFER_BYTES` -/
-def BUFFER_BYTES : Nat := 3072
+def BUFFER_BYTES : Nat := SrcConsts.CONVERSION_BUFFER_BYTES   -- 3072 at the pinned commit; regenerated from the source
 
 /-- `util::round_down_to_multiple` -/
 def roundDown (v m : Nat) : Nat := v - v % m
